@@ -27,6 +27,12 @@ def _to_num(base, seq, flag, container):
 def _from_num(base, num, w):
     if base == 2:
         r = impl.call(dsw.number_to_bit, num, w)
+        if r["out"] == "ok" and isinstance(r["value"], list):
+            got = [int(x) for x in r["value"]]
+            r["value"][:] = [1 - x for x in got] + [7]        # the caller owns the rendering: overwrite it in place ...
+            r2 = impl.call(dsw.number_to_bit, num, w)         # ... and render the same number again
+            again = [int(x) for x in r2["value"]] if r2["out"] == "ok" else r2
+            return got if again == got else {"first": got, "again_after_caller_modified_the_first_result": again}
         return [int(x) for x in r["value"]] if r["out"] == "ok" else r
     r = impl.call(dsw.number_to_dna, num, w)
     return impl.undna(r["value"]) if r["out"] == "ok" else r
